@@ -80,6 +80,36 @@ fn observers<const N: usize>(cx: &mut Ctx, entries: &[(u8, u8)], nk: u8) {
     let _fs: Set<u8, N> = zero!(cx, "Set::from(array)", Set::from(karr));
     let mut es: Set<u8, N> = Set::new();
     zero!(cx, "Set::extend(&T)", es.extend(karr.iter()));
+    // extend / collect from allocation-free sources with every kind of size_hint, into a set that
+    // already holds the items (so that nothing overflows): exact, (0, Some(n)), (0, None), an upper
+    // bound larger than the free slots, a huge upper bound
+    {
+        let mut s2 = s.clone();
+        zero!(cx, "Set::extend(array)", s2.extend(karr));
+        zero!(cx, "Set::extend(filter)", s2.extend(karr.iter().copied().filter(|_| true)));
+        let mut i = 0usize;
+        zero!(cx, "Set::extend(from_fn)", s2.extend(core::iter::from_fn(|| {
+            let r = entries.get(i).map(|e| e.0);
+            i += 1;
+            r
+        })));
+        zero!(cx, "Set::extend(chain twice)", s2.extend(karr.iter().copied().chain(karr.iter().copied()).filter(|k| entries.iter().any(|e| e.0 == *k))));
+        zero!(cx, "Set::extend(take_while over a range)", s2.extend((0u8..=255).take_while(|k| entries.iter().any(|e| e.0 == *k))));
+        cx.check(PM, s2 == s || entries.len() < N, || "extending a set with its own elements changed it".to_string());
+        let mut j = 0usize;
+        let _c1: Set<u8, N> = zero!(cx, "Set::from_iter(from_fn)", core::iter::from_fn(|| {
+            let r = entries.get(j).map(|e| e.0);
+            j += 1;
+            r
+        }).collect());
+        let mut j = 0usize;
+        let _c2: Map<u8, u8, N> = zero!(cx, "Map::from_iter(from_fn)", core::iter::from_fn(|| {
+            let r = entries.get(j).copied();
+            j += 1;
+            r
+        }).collect());
+        let _c3: Map<u8, u8, N> = zero!(cx, "Map::from_iter(filter, repeats)", entries.iter().copied().chain(entries.iter().copied()).filter(|_| true).collect());
+    }
     // borrowing iterators; every reference lies inside the container value
     macro_rules! drain_iter {
         ($what:expr, $mk:expr, $chk:expr) => {{
